@@ -384,7 +384,7 @@ func (fr *Frame) loadGlobal(st *State, p Val) Val {
 		tag := fr.en.typeTag(types.NewPointer(types.Typ[types.Int])) // any stable non-zero tag
 		ref := fr.ctx.Const("errsentinel:"+name, SInt)
 		id := fr.en.sentinelID(name)
-		fr.ctx.Raw("errsentinel-ax:"+name, fmt.Sprintf("(assert (= %s %d))", ref.S, -id-1000))
+		fr.ctx.Raw("errsentinel-ax:"+name, fmt.Sprintf("(assert (= %s (- %d)))", ref.S, id+1000))
 		return Val{K: KNormal, T: t, C: []Term{IntT(int64(tag)), ref}}
 	}
 	v := Val{K: KNormal, T: t, C: make([]Term, len(l))}
